@@ -611,6 +611,47 @@ def run_js_structs(prop):
     return out
 
 
+def cpp_destructor_findings(mod, d, out, replay_dir):
+    """C03, C++ half (declaration level only): the generated owning wrapper of every opaque releases it through
+    `operator delete`, which must call exactly that type's destroy symbol once. Only definite disagreements are
+    findings; an unrecognised shape is recorded in evidence, not reported."""
+    lib = os.path.join(d, "src", "lib.rs")
+    cur = bridgegen.filtered(mod, suffix="")
+    ok, log_ = run_tool("cpp", lib, os.path.join(d, "cpp"))
+    notes = []
+    if not ok:
+        notes.append("diplomat-tool cpp did not accept %s: %s" % (mod.name, log_[-200:]))
+        return notes
+    n = 0
+    for o in mod.opaques:
+        hp = os.path.join(d, "cpp", "%s.hpp" % o)
+        if not os.path.exists(hp):
+            notes.append("no %s.hpp" % o)
+            continue
+        txt = open(hp).read()
+        m = re.search(r"inline\s+void\s+%s::operator\s+delete\s*\(\s*void\s*\*\s*(\w+)\s*\)\s*\{(.*?)\n\}" % re.escape(o), txt, flags=re.S)
+        if not m:
+            notes.append("%s: no operator delete found (shape not recognised)" % o)
+            continue
+        body = m.group(2)
+        calls = re.findall(r"(\w+_destroy)\s*\(", body)
+        want = "%s_destroy" % o
+        problem = None
+        if len(calls) == 0:
+            problem = "operator delete of the C++ wrapper %s calls no destroy function: the Rust object is never dropped" % o
+        elif calls != [want]:
+            problem = "operator delete of the C++ wrapper %s calls %s, expected exactly one call of %s" % (o, calls, want)
+        n += 1
+        if problem:
+            os.makedirs(replay_dir, exist_ok=True)
+            path = os.path.join(replay_dir, "static_cpp_%s_%s.txt" % (mod.name, o))
+            with open(path, "w") as fh:
+                fh.write("DISAGREEMENT in the generated C++ wrapper\n\nfinding: %s\n\n%s\n\nReproduce: diplomat-tool cpp on %s\n" % (problem, m.group(0), lib))
+            out["violations"].append(("static:cpp:%s:%s" % (mod.name, o), path, problem))
+    notes.append("%d operator delete definitions checked in %s" % (n, mod.name))
+    return notes
+
+
 def run(prop):
     """Engine entry point used by props.run_property."""
     if prop == "C07":
@@ -646,6 +687,8 @@ def run(prop):
                 out["known"].append(("static:" + subject, k))
             else:
                 out["violations"].append(("static:%s:%s" % (mod.name, subject), path, message))
+        if prop == "C03" and not isinstance(mod, RawModule) and mod.name in ("m0_core", "m0_callbacks"):
+            out["coverage"].setdefault("cpp_wrapper_notes", []).extend(cpp_destructor_findings(mod, prep["dir"], out, replay_dir))
         programs.append({"module": mod.name, "types": len(mod.order), "methods": len(mod.methods),
                          "c_functions": len(prep["cm"].functions), "harnesses": len(wanted), "dropped_by_lowering": prep.get("fitted_out", []),
                          "sha": hashlib.sha256(open(os.path.join(prep["dir"], "src", "lib.rs"), "rb").read()).hexdigest()[:12]})
